@@ -149,6 +149,10 @@ def gen_params(rng, tier):
                                       method=['weight_offset', 'weight_only'][int(rng.integers(2))],
                                       D=int(rng.choice([me['D'], me['D'], 3])), nf=int(rng.choice([me['nf'], 2])),
                                       shape=1.5, rs=int(rng.integers(0, 100)))
+    # large batches (many rows x many components): every row must be transformed
+    for D, rows in ((4096, 1500), (2048, 2500)):
+        out.append(dict(test='formula', kernel='gaussian', method='weight_only', seedtype='int', rs=3, nf=2, D=D, rows=rows,
+                        shape=1.0, seed=int(rng.integers(1 << 30))))
     for i in range(n_l):
         out.append(dict(test='layout', kernel=kernels[i % 3], method=['weight_offset', 'weight_only'][(i // 3) % 2],
                         rs=int(rng.integers(0, 10000)), ns=int(rng.integers(1, 4)), nu=int(rng.integers(0, 3)),
